@@ -32,35 +32,45 @@ deriving DecidableEq, Repr
 inductive DelOrder
   | storeFirst    -- today: `deleteFn`, on success `ca.Delete`
   | cacheFirst    -- `ca.Delete` first, then `deleteFn` (harmless: an emptier cache is still coherent)
+  | noDelete      -- the store callback only: the cached entry survives a successful delete (a BAD configuration)
+  | unknown       -- not recognised: the model makes no claim (it behaves like `noDelete`, the oracle answers `unknown-cfg`)
+deriving DecidableEq, Repr
+
+/-- is `Worker.Start` protected against a second call? -/
+inductive StartGuard
+  | once        -- `startOnce.Do(… go w.runLoop())`: a second `Start` starts nothing
+  | unguarded   -- `go w.runLoop()` on every call: a second `Start` puts a second consumer on every worker's queue
   | unknown
 deriving DecidableEq, Repr
 
 structure Cfg where
   delOrder : DelOrder
+  startGuard : StartGuard
 deriving DecidableEq, Repr
+
+/-- the handlers keep the cache coherent for these configurations -/
+def DelOk (c : Cfg) : Prop := c.delOrder = .storeFirst ∨ c.delOrder = .cacheFirst
+instance : DecidablePred DelOk := fun c => by unfold DelOk; exact inferInstance
 
 /-- configurations for which the property theorems are proved -/
-def Proved (c : Cfg) : Prop := c.delOrder = .storeFirst ∨ c.delOrder = .cacheFirst
+def Proved (c : Cfg) : Prop := DelOk c ∧ c.startGuard = .once
 instance : DecidablePred Proved := fun c => by unfold Proved; exact inferInstance
 
-/-- shape facts of `worker.go` / `wgroup.go` the model is written against -/
+/-- shape facts of the source the model is written against: every function of a group has exactly the canonical text
+(locals renamed) the model was validated against -/
 structure Facts where
-  loadSetAfterCheck : Bool      -- handleLoad: `ca.Set(op.k, v)` only after `if err != nil { …return }` of loadFn
-  addPeekFirst : Bool           -- handleAdd: `ca.Peek` + ErrDupKey return precede addFn
-  addSetAfterCheck : Bool
-  updateSetAfterCheck : Bool    -- both branches of handleUpdate
-  updOrAddSetAfterCheck : Bool  -- the three Set sites of handleMixUpdOrAddIfNull
-  upsertLoadSetAfterCheck : Bool
-  upsertRenewSetAfterCheck : Bool   -- and no Set on the miss branch
-  getFastPath : Bool            -- Worker.DoGet: `ca.Get` hit returns, else asyncCall(NewLoad)
-  oneConsumerPopAnyway : Bool   -- Worker.Start: `go w.runLoop()`; runLoop: PopAnyway + handleAsync; asyncCall: AddReq then R()
-  routeByLocHash : Bool         -- every WorkerGrp.DoX: `w.ws[w.locHash(k)].DoX(…)`
-  queueFifo : Bool              -- mux.Q: AddReq PushBack, PopAnyway Front
-  facadeShape : Bool            -- cacheex.go: FacadeMap = cache.Map with Peek = Get; FacadeLRU Peek/Get/Set/Delete pass
-                                -- straight through to LRUCache with the `_wrapper{v}` (size 1), whatever the value (nil included)
+  handlers : Bool      -- `handleAsync` dispatch and six handlers (`handleDelete`: `Cfg.delOrder`): every `ca.Set` follows the
+                       -- nil-check of the callback whose value it stores; `handleAdd` peeks before `addFn`
+  workerApi : Bool     -- `Worker.DoX` build the op they are named after, `DoGet` fast path, `asyncCall` = `AddReq` + `R()`,
+                       -- `runLoop` = `PopAnyway` + `handleAsync`, the op constructors and the result cell of gas.go
+  groupRouting : Bool  -- every `WorkerGrp.DoX` is `w.ws[w.locHash(k)].DoX(…)`; constructors; `Start` loops over `Worker.Start` (`Cfg.startGuard`)
+  facadeShape : Bool   -- cacheex.go: FacadeMap = cache.Map with Peek = Get; FacadeLRU passes straight through with `_wrapper{v}`
+  queueBodies : Bool   -- mux.Q: AddReq (closed? full? PushBack, Broadcast), PopAnyway (Front, blocks while empty and open), Close …
+  cacheBodies : Bool   -- cache.Map and cache.LRUCache: the methods the facades use, whole bodies
+  lockCoverage : Bool  -- every state-touching method of mux.Q, cache.Map (RLock for Get/Exist) and LRUCache is covered by its mutex
 deriving DecidableEq, Repr
 
-def Facts.expected : Facts := ⟨true, true, true, true, true, true, true, true, true, true, true, true⟩
+def Facts.expected : Facts := ⟨true, true, true, true, true, true, true⟩
 
 /-! ### store -/
 
@@ -191,10 +201,14 @@ def hDelete (cfg : Cfg) (c : Ctx) (k : Key) : Ctx × Res :=
     (match callDel { c with cache := cDelete c.cache k } k with
      | (.error e, c) => (c, .err e)
      | (.ok _, c) => (c, .nil))
+  | .storeFirst =>
+    (match callDel c k with
+     | (.error e, c) => (c, .err e)
+     | (.ok _, c) => ({ c with cache := cDelete c.cache k }, .nil))
   | _ =>
     match callDel c k with
     | (.error e, c) => (c, .err e)
-    | (.ok _, c) => ({ c with cache := cDelete c.cache k }, .nil)
+    | (.ok _, c) => (c, .nil)
 
 def hUpdOrAdd (c : Ctx) (k : Key) (v : Val) : Ctx × Res :=
   match cPeek c.cache k with
@@ -267,7 +281,9 @@ def handle (cfg : Cfg) (c : Ctx) : Op → Ctx × Res
 
 /-! ### the group -/
 
-abbrev Loc := BitVec 64 → BitVec 64 → BitVec 64     -- (muxSize, hash) ↦ index, as `locHash` is regenerated
+/-- (muxSize, key) ↦ worker index: `locHash` composed with the key type's `HashedInt` — both regenerated from the
+source (the oracle passes `locHash ∘ Int.HashedInt`); the model fixes neither -/
+abbrev Loc := BitVec 64 → BitVec 64 → BitVec 64
 
 /-- today's `locHash`: absolute value first, then remainder -/
 def locAbsFirst (n h : BitVec 64) : BitVec 64 := (if h.slt 0#64 then -h else h).srem n
@@ -314,21 +330,30 @@ def Coherent (s : State) : Prop :=
 /-! ### per-worker FIFO with one consumer: acceptance order = application order per key -/
 
 structure QState where
-  pending : List (List (Op × List Bool))   -- per worker, oldest first
+  pending : List (List (Op × List Bool))   -- per worker, oldest first; the first `busy[w]` of them are being handled
+  busy : List Nat                          -- per worker: operations taken by a consumer and not yet completed
+  consumers : Nat                          -- consumer goroutines per worker (`Start` calls that took effect)
   accepted : List (Op × List Bool)         -- ghost: all accepted ops, oldest first
   applied : List (Op × List Bool)          -- ghost: all applied ops, oldest first
   st : State
 deriving DecidableEq, Repr
 
 inductive QAct
+  | start                            -- `WorkerGrp.Start()`
   | enqueue (inp : Op × List Bool)   -- `asyncCall`: `workQ.AddReq`
-  | process (w : Nat)                -- worker w: `PopAnyway` + `handleAsync`
+  | take (w : Nat)                   -- a consumer of worker w: `PopAnyway` (the handler starts)
+  | complete (w : Nat)               -- the oldest handler in flight on worker w finishes: its effect is applied
 deriving DecidableEq, Repr
 
 def qInit (lru : Bool) (cap workers : Nat) : QState :=
-  { pending := List.replicate workers [], accepted := [], applied := [], st := State.init lru cap workers }
+  { pending := List.replicate workers [], busy := List.replicate workers 0, consumers := 0,
+    accepted := [], applied := [], st := State.init lru cap workers }
 
 def qStep (cfg : Cfg) (loc : Loc) (q : QState) : QAct → Option QState
+  | .start =>
+    if q.consumers == 0 then some { q with consumers := 1 }
+    else if cfg.startGuard == .once then some q
+    else some { q with consumers := q.consumers + 1 }
   | .enqueue inp =>
     match workerOf loc q.st.caches.length inp.1.key with
     | none => none
@@ -336,13 +361,22 @@ def qStep (cfg : Cfg) (loc : Loc) (q : QState) : QAct → Option QState
       match q.pending[w]? with
       | none => none
       | some l => some { q with pending := q.pending.set w (l ++ [inp]), accepted := q.accepted ++ [inp] }
-  | .process w =>
-    match q.pending[w]? with
-    | some (inp :: rest) =>
-      some { q with pending := q.pending.set w rest, applied := q.applied ++ [inp], st := (step cfg loc q.st inp).1 }
-    | _ => none
+  | .take w =>
+    match q.pending[w]?, q.busy[w]? with
+    | some l, some b => if b < q.consumers && b < l.length then some { q with busy := q.busy.set w (b + 1) } else none
+    | _, _ => none
+  | .complete w =>
+    match q.pending[w]?, q.busy[w]? with
+    | some (inp :: rest), some (b + 1) =>
+      some { q with pending := q.pending.set w rest, busy := q.busy.set w b, applied := q.applied ++ [inp],
+                    st := (step cfg loc q.st inp).1 }
+    | _, _ => none
 
 def qLTS (cfg : Cfg) (loc : Loc) (lru : Bool) (cap workers : Nat) : LTS QState QAct :=
   { init := qInit lru cap workers, step := qStep cfg loc }
+
+/-- operations of worker w that are being handled right now -/
+def inFlight (q : QState) (w : Nat) : List (Op × List Bool) :=
+  ((q.pending[w]?).getD []).take ((q.busy[w]?).getD 0)
 
 end Nv.C15
